@@ -282,7 +282,29 @@ func runC07(c *core.Ctx) {
 		s := an.CallsTo(fn, false, "snapshot/plan.syncFileMaybe")
 		r := an.CallsTo(fn, false, "os.Rename")
 		ok := len(w) == 1 && len(s) == 1 && len(r) == 1
-		if ok {
+		viaHelper := false
+		if !ok && len(r) == 1 && len(w) == 0 {
+			// write + sync moved into a helper: a call whose success implies both, on the rename's source
+			for _, call := range an.AllCalls(fn, false) {
+				callee := call.Common().StaticCallee()
+				if callee == nil || !core.InModule(callee) {
+					continue
+				}
+				idx, good := writesAndSyncs(callee)
+				if !good || idx >= len(call.Common().Args) {
+					continue
+				}
+				g := an.SenseEdges(fn, an.ErrResult(call), an.IsNil)
+				if len(g) > 0 && call.Common().Args[idx] == r[0].Common().Args[0] && isParamN(fn, 1)(r[0].Common().Args[1]) &&
+					len(an.Ungated(an.CutSpec{Fn: fn, GateEdge: g, Sink: func(in ssa.Instruction) bool { return in == r[0].(ssa.Instruction) }})) == 0 {
+					c.Touch(callee)
+					c.OK("C07.c", "ORD", "plan.WriteToFile:tmp-sync-rename", c.P.Pos(fn.Pos()), "the plan is written to a temporary file and synced (in "+core.FuncName(callee)+"), then renamed into place")
+					ok = true
+				}
+			}
+			viaHelper = ok
+		}
+		if ok && !viaHelper {
 			g1 := an.SenseEdges(fn, an.ErrResult(w[0]), an.IsNil)
 			g2 := an.SenseEdges(fn, an.ErrResult(s[0]), an.IsNil)
 			ok = len(an.Ungated(an.CutSpec{Fn: fn, GateEdge: g1, Sink: func(in ssa.Instruction) bool { return in == s[0].(ssa.Instruction) }})) == 0 &&
@@ -290,7 +312,9 @@ func runC07(c *core.Ctx) {
 			// the file written and synced is the rename's source, the target is the parameter
 			ok = ok && w[0].Common().Args[0] == r[0].Common().Args[0] && s[0].Common().Args[0] == w[0].Common().Args[0] && isParamN(fn, 1)(r[0].Common().Args[1])
 		}
-		c.Result(ok, "C07.c", "ORD", "plan.WriteToFile:tmp-sync-rename", c.P.Pos(fn.Pos()), "the plan is written to a temporary file, synced, then renamed into place", "plan.WriteToFile is not write-tmp → sync → rename: a crash can leave a torn plan under the real name", nil)
+		if !viaHelper {
+			c.Result(ok, "C07.c", "ORD", "plan.WriteToFile:tmp-sync-rename", c.P.Pos(fn.Pos()), "the plan is written to a temporary file, synced, then renamed into place", "plan.WriteToFile is not write-tmp → sync → rename: a crash can leave a torn plan under the real name", nil)
+		}
 	}
 	if fn := c.Fn("C07.c", "snapshot", "(*Store).check"); fn != nil {
 		reads := an.CallsTo(fn, false, "snapshot/plan.ReadFromFile")
